@@ -188,7 +188,7 @@ func genNumberLit(r *rng.R) string {
 	case 5: // whole value with a fraction marker
 		return sign + strconv.Itoa(r.Intn(100000)) + "." + strings.Repeat("0", r.Range(1, 4))
 	case 6: // integer mantissa with exponent
-		return sign + strconv.Itoa(r.Range(1, 999)) + []string{"e", "E"}[r.Intn(2)] + []string{"", "+", "-"}[r.Intn(3)] + strconv.Itoa(r.Intn(20))
+		return sign + strconv.Itoa(r.Range(1, 999)) + []string{"e", "E"}[r.Intn(2)] + []string{"", "+", "-"}[r.Intn(3)] + []string{"", "", "", "0", "00", "000", "0000000"}[r.Intn(7)] + strconv.Itoa(r.Intn(20))
 	case 7: // fraction with trailing zeros / leading zero digits
 		return sign + strconv.Itoa(r.Intn(1000)) + "." + digits(r.Range(1, 6), false) + strings.Repeat("0", r.Intn(3))
 	case 8: // long mantissa (more digits than a float64 holds)
@@ -196,7 +196,8 @@ func genNumberLit(r *rng.R) string {
 	case 9: // near the top of the range
 		return sign + []string{"1.7976931348623157e308", "1.7976931348623157E+308", "1e308", "9.9e307", "17976931348623157e292", "1.797693134862315e308"}[r.Intn(6)]
 	case 10: // near the bottom / underflow
-		return sign + []string{"5e-324", "4.9e-324", "2.2250738585072014e-308", "2.2250738585072011e-308", "1e-323", "1e-400", "0.0", "0e0", "0.0e-0", "3e-324"}[r.Intn(10)]
+		return sign + []string{"5e-324", "4.9e-324", "2.2250738585072014e-308", "2.2250738585072011e-308", "1e-323", "1e-400", "0.0", "0e0", "0.0e-0", "3e-324",
+			"0e1000", "0E+99999", "0.0e-5000", "1e0010", "2.5E-0003", "1e+000000000000000000007", "0.000e0000", "7e-0000300"}[r.Intn(18)]
 	case 11: // shortest round trip of a random float
 		f := spec.GenFloat(r)
 		return refjson.FloatLit(f)
